@@ -303,7 +303,6 @@ func (c *ShadowStreamClientConn) initRead(b []byte) (payloadLen int, err error) 
 	if err != nil {
 		return 0, err
 	}
-	c.ShadowStreamConn.readCipher = shadowStreamCipher
 
 	// Open sealed response header.
 	plaintext, err := shadowStreamCipher.DecryptInPlace(ciphertext)
@@ -316,6 +315,10 @@ func (c *ShadowStreamClientConn) initRead(b []byte) (payloadLen int, err error) 
 	if err != nil {
 		return 0, err
 	}
+
+	// Only install the read cipher once the response is authenticated and bound to our request,
+	// so that a rejected response can never be read from by a later call.
+	c.ShadowStreamConn.readCipher = shadowStreamCipher
 
 	return payloadLen, nil
 }
